@@ -149,7 +149,7 @@ def gen_constants(dump, custom_th=None, caps=None, track_hist=None):
     if track_hist is None:
         track_hist = uses_hist
     c = {"queue": 32, "states": 64, "extra": 8, "actionq": 8, "oneshot": 16, "seqs": 4,
-         "stack": 12, "hist": 8 if track_hist else 0, "age": max_number(dump) + 2}
+         "stack": 12, "hist": 8 if track_hist else 0, "age": max_number(dump) + 2, "since": 65535}
     if caps:
         c.update(caps)
     opts = dict(dump["opts"])
@@ -225,7 +225,7 @@ def parse_tlc_out(path):
     depth = None
     with open(path, errors="replace") as f:
         for line in f:
-            if line.startswith("<<\"EDGE\""):
+            if line.startswith("<<\""):
                 continue
             m = re.match(r"(\d+) states generated, (\d+) distinct states found, (\d+) states left on queue", line)
             if m:
